@@ -265,7 +265,12 @@ func runStreams(family string, ops []sop, prog []step) (fail, clause, key string
 		if p := lib.Catch(func() { res = op.apply(r, a) }); p != "" {
 			return fmt.Sprintf("step %d %s: %s", si, descr(si), p), "panic|" + op.name, ""
 		}
-		// identity: the result may be an existing object (then it IS that object)
+		// identity: the result may be an existing object (then it IS that object) - the receiver, as some
+		// operations of the library do when there is nothing to do; but not the ARGUMENT: the caller only lent it,
+		// and an in-place mutator applied to "the result" would then rewrite it
+		if op.arity == 1 && s.a != s.r && res.ID() == a.ID() && w.live[s.r].ID() != a.ID() {
+			return fmt.Sprintf("step %d %s returned its argument itself (not a collection of its own): a later in-place mutation of the result rewrites the argument", si, descr(si)), "result-is-the-argument|" + op.name, ""
+		}
 		var mp *[]int
 		for i, l := range w.live {
 			if l.ID() == res.ID() {
@@ -630,6 +635,9 @@ func runSets(family string, ops []mop, prog []step) (fail, clause, key string) {
 		if op.inPlace {
 			*model[s.r] = want
 		} else {
+			if op.arity == 1 && s.a != s.r && res.ID() == a.ID() && live[s.r].ID() != a.ID() {
+				return fmt.Sprintf("%s returned its argument itself (not a set of its own): Set on the result then rewrites the argument", progStr(si+1)), "result-is-the-argument|" + op.name, ""
+			}
 			var mp *map[int]int
 			for i, l := range live {
 				if l.ID() == res.ID() {
